@@ -328,6 +328,11 @@ func Run(seed int64, n int, outDir string) error {
 		if err != nil {
 			return fmt.Errorf("history %d: %w", k, err)
 		}
+		for _, op := range log {
+			if op == NegativeBaselineNote {
+				st.Count("history/negative-fee-baseline-by-messages")
+			}
+		}
 		for _, o := range os {
 			t := tables[o.mod]
 			cf.Add(o.coq())
